@@ -355,9 +355,9 @@ def run_faults(run, vf, prop):
     # one TLC run per scenario (all in parallel): a trace the specification cannot explain must not hide the others
     def validate(t):
         cid, text, n = t
-        cfgs = ["ClientConnLife_noauto.cfg"] if byid[cid].get("noauto") else ["ClientConnLife.cfg", "ClientConnLife_fixed.cfg"]
+        cfgs = ["ClientConnLife_noauto.cfg"] if byid[cid].get("noauto") else ["ClientConnLife.cfg"]
         r = None
-        for cfg in cfgs:    # as-is first; a trace it rejects may be a behaviour of the repaired client (deviation flags off)
+        for cfg in cfgs:
             try:
                 r = run.tlc("ClientConn", "ClientConnLife", cfg, mode="trace", files={"trace.ndjson": text}, deque=True, count=True,
                             timeout=run.pick(150, 600), label="trace validation of scenario %s (%d events) %s" % (cid, n, cfg))
